@@ -49,7 +49,7 @@ SpansMidnight(c) == EndOf(c, c.nt)[1] # BeginOf(c, 1)[1]
 \* ... and the sequential temperature and wind readers when the two-digit dates wrap (99365 -> 00001)
 SpansCentury(c) == YYJJJ(BeginOf(c, c.nt)) < YYJJJ(BeginOf(c, 1))
 \* needflags: the reader defines TFLAG (the sequential readers do not)
-ContentDiag(c, names, got, nsteps, needflags) ==
+ContentDiagH(c, names, got, nsteps, needflags, needhdr) ==
   LET vs == VarsOf(c, names) IN
   IF got.dims.TSTEP # nsteps THEN "number of time steps"
   ELSE IF got.dims.LAY # c.nz \/ got.dims.ROW # c.ny \/ got.dims.COL # c.nx THEN "grid dimensions"
@@ -62,9 +62,16 @@ ContentDiag(c, names, got, nsteps, needflags) ==
   ELSE IF (needflags \/ Len(got.tflag) > 0) /\ Len(got.tflag) # nsteps THEN "number of begin time flags"
   ELSE IF \E t \in 1..Len(got.tflag) : FlagInst(got.tflag[t]) # BeginOf(c, t)
        THEN "begin time flag of step " \o ToString(CHOOSE t \in 1..Len(got.tflag) : FlagInst(got.tflag[t]) # BeginOf(c, t))
+  \* grid header of the self-describing formats
+  ELSE IF needhdr /\ c.fmt \in {"uamiv", "lateral_boundary"} /\
+          got.hdr # [xorg |-> c.xorg, yorg |-> c.yorg, delx |-> c.delx, dely |-> c.dely, plon |-> c.plon, plat |-> c.plat,
+                     tlat1 |-> c.tlat1, tlat2 |-> c.tlat2, iutm |-> c.iutm, istag |-> c.istag, iproj |-> c.iproj, itzon |-> c.itzon]
+       THEN "grid header (origin, cell sizes, projection parameters, time zone)"
   ELSE IF Len(got.etflag) > 0 /\ (\E t \in 1..nsteps : FlagInst(got.etflag[t]) # EndOf(c, t))
        THEN "end time flag of step " \o ToString(CHOOSE t \in 1..nsteps : FlagInst(got.etflag[t]) # EndOf(c, t))
   ELSE ""
+
+ContentDiag(c, names, got, nsteps, needflags) == ContentDiagH(c, names, got, nsteps, needflags, FALSE)
 
 \* the step count the memory-mapped reader's rule yields for a prefix of n bytes
 HeaderBytes(cc) == Offset(cc, NHeader(cc))
@@ -89,7 +96,7 @@ TStep ==
                THEN TrKnown(tr, "C09_K2_sequential_met_single_step")
                ELSE /\ ChkT(tr, r, "reader '" \o rd.reader \o "' rejected a valid file: " \o rd.exc, rd.res = "ok")
                     /\ ChkS(tr, r, "reader '" \o rd.reader \o "' does not present the encoded content",
-                            ContentDiag(c, tr.names, rd.got, c.nt, rd.reader = "memmap")))
+                            ContentDiagH(c, tr.names, rd.got, c.nt, rd.reader = "memmap", rd.reader = "memmap")))
           \* C13: when both reader families accept the file they expose the same
           \* lengths, data and time flags
           /\ (Prop = "C13" /\ (\A r \in 1..Len(tr.reads) : tr.reads[r].res = "ok") =>
@@ -112,7 +119,7 @@ TStep ==
           \* C08: round trip and idempotent rewrite
           /\ (Prop = "C08" =>
                 /\ ChkT(tr, 1, "re-read raised: " \o tr.rexc, tr.rres = "ok")
-                /\ ChkS(tr, 1, "read(write(f)) differs from f", ContentDiag(c, tr.names, tr.got, c.nt, TRUE))
+                /\ ChkS(tr, 1, "read(write(f)) differs from f", ContentDiagH(c, tr.names, tr.got, c.nt, TRUE, TRUE))
                 /\ ChkT(tr, 1, "write(read(write(f))) is not byte-identical to write(f)", tr.same_bytes))
        [] tr.kind = "cuts" ->
           \A p \in 1..Len(tr.obs) : LET o == tr.obs[p] IN
